@@ -165,7 +165,7 @@ def threaded_runs(ctx):
         return ctx._c18_threads
     runs = []
     ctx._c18_shape = []
-    max_runs = ctx.budget(60, 1200)
+    max_runs = ctx.budget(60, 1000)
     with S.pinned_tz(S.LOCAL_TZ):
         for ci, (spec, cap, scripts, bound) in enumerate(FIXED_CASES):
             b = bound if ctx.tier == "thorough" or ctx.escalated else min(bound, 2)
@@ -185,12 +185,12 @@ def threaded_runs(ctx):
                 runs.append(summarize(rec, spec, cap, scripts, {"policy": "prefix", "case": "fine%d" % ci, "fine": True}))
             try:
                 b = bound if ctx.tier == "thorough" or ctx.escalated else 1
-                n, exhausted = S.explore(make, b, ctx.budget(80, 600), on_run, fine=True)
+                n, exhausted = S.explore(make, b, ctx.budget(80, 500), on_run, fine=True)
                 ctx.count("explore_fine_%d_%s_bound%d_%s" % (ci, spec, b, "exhausted" if exhausted else "truncated"), n)
             except S.ShapeChanged as ex:
                 ctx._c18_shape.append("%s: %s" % (spec, ex))
         rng = ctx.subrng("threads")
-        for i in range(ctx.budget(150, 2500)):
+        for i in range(ctx.budget(150, 2000)):
             spec, cap, scripts = gen_case(rng)
             seed = rng.randrange(1 << 30)
             rate = rng.choice([0.0, 0.05, 0.15])
@@ -407,7 +407,7 @@ def correspondence(ctx):
     _quiet()
     basecorr.run(ctx)
     # ---- (a) scripted single-thread runs vs the model ----
-    runs = scripted_runs(ctx, ctx.budget(80, 1500))
+    runs = scripted_runs(ctx, ctx.budget(80, 1000))
     resp = ctx.driver([r["req"] for r in runs])
     for r, m in zip(runs, resp):
         diffs = S.compare_script(r["obs"], S.parse_model(m))
